@@ -2,6 +2,7 @@ package main
 
 import (
 	"fmt"
+	"os"
 	"math/big"
 	"sort"
 	"strings"
@@ -240,6 +241,44 @@ func Ite(c, a, b *Term) *Term {
 	return app(a.Sort, "ite", c, a, b)
 }
 
+// numVal parses a numeral term ("5" or "(- 5)"), looking through definitions.
+func numVal(t *Term) (*big.Int, bool) {
+	s := peek(t).S
+	if isNumeral(s) {
+		v, ok := new(big.Int).SetString(s, 10)
+		return v, ok
+	}
+	if strings.HasPrefix(s, "(- ") && isNumeral(s[3:len(s)-1]) {
+		v, ok := new(big.Int).SetString(s[3:len(s)-1], 10)
+		if ok {
+			v.Neg(v)
+		}
+		return v, ok
+	}
+	return nil, false
+}
+
+// linForm splits t into base + constant ("(+ base c)" shapes produced by Add); base "" for numerals.
+func linForm(t *Term) (string, *big.Int) {
+	if v, ok := numVal(t); ok {
+		return "", v
+	}
+	s := t.S
+	if strings.HasPrefix(s, "(+ ") {
+		if a, b, ok := split2(s[3 : len(s)-1]); ok {
+			if v, ok := numVal(mk(SInt, b)); ok {
+				base, c := linForm(mk(SInt, a))
+				return base, new(big.Int).Add(c, v)
+			}
+			if v, ok := numVal(mk(SInt, a)); ok {
+				base, c := linForm(mk(SInt, b))
+				return base, new(big.Int).Add(c, v)
+			}
+		}
+	}
+	return s, big.NewInt(0)
+}
+
 func Add(a, b *Term) *Term {
 	if b.S == "0" {
 		return a
@@ -247,11 +286,34 @@ func Add(a, b *Term) *Term {
 	if a.S == "0" {
 		return b
 	}
+	if x, ok := numVal(a); ok {
+		if y, ok := numVal(b); ok {
+			return BigLit(new(big.Int).Add(x, y))
+		}
+	}
+	// (base + c1) + c2 -> base + (c1+c2)
+	if y, ok := numVal(b); ok {
+		if base, c := linForm(a); base != "" && c.Sign() != 0 {
+			sum := new(big.Int).Add(c, y)
+			if sum.Sign() == 0 {
+				return mk(SInt, base)
+			}
+			return app(SInt, "+", mk(SInt, base), BigLit(sum))
+		}
+	}
 	return app(SInt, "+", a, b)
 }
 func Sub(a, b *Term) *Term {
 	if b.S == "0" {
 		return a
+	}
+	if x, ok := numVal(a); ok {
+		if y, ok := numVal(b); ok {
+			return BigLit(new(big.Int).Sub(x, y))
+		}
+	}
+	if a.S == b.S {
+		return IntLit(0)
 	}
 	return app(SInt, "-", a, b)
 }
@@ -262,13 +324,51 @@ func Mul(a, b *Term) *Term {
 	if b.S == "1" {
 		return a
 	}
+	if x, ok := numVal(a); ok {
+		if y, ok := numVal(b); ok {
+			return BigLit(new(big.Int).Mul(x, y))
+		}
+	}
 	return app(SInt, "*", a, b)
 }
-func Neg(a *Term) *Term   { return app(SInt, "-", a) }
-func Lt(a, b *Term) *Term { return app(SBool, "<", a, b) }
-func Le(a, b *Term) *Term { return app(SBool, "<=", a, b) }
-func Gt(a, b *Term) *Term { return app(SBool, ">", a, b) }
-func Ge(a, b *Term) *Term { return app(SBool, ">=", a, b) }
+func Neg(a *Term) *Term {
+	if x, ok := numVal(a); ok {
+		return BigLit(new(big.Int).Neg(x))
+	}
+	return app(SInt, "-", a)
+}
+func cmpFold(a, b *Term, f func(int) bool) (*Term, bool) {
+	if x, ok := numVal(a); ok {
+		if y, ok := numVal(b); ok {
+			return BoolLit(f(x.Cmp(y))), true
+		}
+	}
+	return nil, false
+}
+func Lt(a, b *Term) *Term {
+	if r, ok := cmpFold(a, b, func(c int) bool { return c < 0 }); ok {
+		return r
+	}
+	return app(SBool, "<", a, b)
+}
+func Le(a, b *Term) *Term {
+	if r, ok := cmpFold(a, b, func(c int) bool { return c <= 0 }); ok {
+		return r
+	}
+	return app(SBool, "<=", a, b)
+}
+func Gt(a, b *Term) *Term {
+	if r, ok := cmpFold(a, b, func(c int) bool { return c > 0 }); ok {
+		return r
+	}
+	return app(SBool, ">", a, b)
+}
+func Ge(a, b *Term) *Term {
+	if r, ok := cmpFold(a, b, func(c int) bool { return c >= 0 }); ok {
+		return r
+	}
+	return app(SBool, ">=", a, b)
+}
 
 func Select(arr, idx *Term) *Term {
 	s := string(arr.Sort)
@@ -314,7 +414,161 @@ func ConstArr(sort Sort, v *Term) *Term {
 }
 
 // Heap access helpers: H[obj][slot]
-func HSel(h, obj, slot *Term) *Term { return Select(Select(h, obj), slot) }
+// HSel reads H[obj][slot], looking through the chain of named heap versions while the written
+// location is syntactically the same (take the value) or syntactically different (skip the write).
+var hselMemo = map[string]*Term{}
+
+func HSel(h, obj, slot *Term) *Term {
+	key := h.S + "|" + obj.S + "|" + slot.S
+	if r, ok := hselMemo[key]; ok {
+		return r
+	}
+	r := hsel(h, obj, slot, 0)
+	hselMemo[key] = r
+	return r
+}
+
+func hsel(h, obj, slot *Term, depth int) *Term {
+	cur := h
+	for i := 0; i < 64; i++ {
+		d := peek(cur)
+		if strings.HasPrefix(d.S, "(ite ") && depth < 6 {
+			// a merged heap: read both sides; equal results need no case split
+			if a := ctorArgs(d, "ite"); len(a) == 3 {
+				ra := HSel(mk(h.Sort, a[1]), obj, slot)
+				rb := HSel(mk(h.Sort, a[2]), obj, slot)
+				if ra.S == rb.S {
+					return ra
+				}
+				return Ite(mk(SBool, a[0]), ra, rb)
+			}
+		}
+		if !strings.HasPrefix(d.S, "(store ") {
+			break
+		}
+		a := ctorArgs(d, "store")
+		if len(a) != 3 {
+			break
+		}
+		base, wobj, wrow := a[0], a[1], a[2]
+		sameObj, diffObj := wobj == obj.S, distinctObjs(wobj, obj.S)
+		if !sameObj && !diffObj {
+			if os.Getenv("GOVC_DEBUG_HSEL") != "" {
+				fmt.Fprintf(os.Stderr, "HSel stop: read %s[%s] blocked by write to %s\n", obj.S, slot.S, wobj)
+			}
+			break
+		}
+		if diffObj {
+			cur = mk(h.Sort, base)
+			continue
+		}
+		// same object: row must be (store (select base obj) slot v), possibly nested
+		row := wrow
+		done := false
+		for j := 0; j < 64; j++ {
+			ra := ctorArgs(mk(SInt, row), "store")
+			if len(ra) != 3 {
+				break
+			}
+			ws := ra[1]
+			if ws == slot.S {
+				_, vs := splitArr(h.Sort)
+				_, leaf := splitArr(vs)
+				return mk(leaf, ra[2])
+			}
+			if !distinctSlots(ws, slot.S) {
+				done = true
+				break
+			}
+			row = ra[0]
+		}
+		if done {
+			break
+		}
+		if row == "(select "+base+" "+wobj+")" {
+			cur = mk(h.Sort, base)
+			continue
+		}
+		if strings.HasPrefix(row, "((as const ") {
+			// freshly allocated zero row
+			k := strings.LastIndex(row, ") ")
+			_, vs := splitArr(h.Sort)
+			_, leaf := splitArr(vs)
+			return mk(leaf, row[k+2:len(row)-1])
+		}
+		break
+	}
+	return Select(Select(cur, obj), slot)
+}
+
+func distinctSlots(a, b string) bool {
+	ba, ca := linForm(mk(SInt, a))
+	bb, cb := linForm(mk(SInt, b))
+	return ba == bb && ca.Cmp(cb) != 0
+}
+
+// distinctObjs: two different freshly allocated objects (named obj!k), or two different numerals.
+func distinctObjs(a, b string) bool {
+	if a == b {
+		return false
+	}
+	if strings.HasPrefix(a, "obj!") && strings.HasPrefix(b, "obj!") {
+		return true
+	}
+	if isNumeral(a) && isNumeral(b) {
+		return true
+	}
+	if (isNumeral(a) && strings.HasPrefix(b, "obj!")) || (isNumeral(b) && strings.HasPrefix(a, "obj!")) {
+		return true
+	}
+	// a reference term that was created before object obj!K was allocated cannot denote it: every
+	// reference value is created together with the fact obj < next (heap well-formedness)
+	if strings.HasPrefix(a, "obj!") {
+		if k, ok := bangNum(a); ok && maxBang(b) < k && maxBang(b) >= 0 {
+			return true
+		}
+	}
+	if strings.HasPrefix(b, "obj!") {
+		if k, ok := bangNum(b); ok && maxBang(a) < k && maxBang(a) >= 0 {
+			return true
+		}
+	}
+	return false
+}
+
+func bangNum(s string) (int, bool) {
+	k := strings.LastIndex(s, "!")
+	if k < 0 {
+		return 0, false
+	}
+	n := 0
+	for _, c := range s[k+1:] {
+		if c < '0' || c > '9' {
+			return 0, false
+		}
+		n = n*10 + int(c-'0')
+	}
+	return n, true
+}
+
+// maxBang returns the largest creation number !N occurring in s (-1 if none).
+func maxBang(s string) int {
+	best := -1
+	for i := 0; i < len(s); i++ {
+		if s[i] != '!' {
+			continue
+		}
+		n, j := 0, i+1
+		for j < len(s) && s[j] >= '0' && s[j] <= '9' {
+			n = n*10 + int(s[j]-'0')
+			j++
+		}
+		if j > i+1 && n > best {
+			best = n
+		}
+	}
+	return best
+}
 func HSto(h, obj, slot, v *Term) *Term {
 	return Store(h, obj, Store(Select(h, obj), slot, v))
 }
@@ -528,6 +782,9 @@ const preludeStr = `(assert (forall ((s Str)) (! (>= (strlen s) 0) :pattern ((st
 (assert (forall ((m (Array Int Int)) (o Int) (n Int)) (! (=> (>= n 0) (= (strlen (mkstr m o n)) n)) :pattern ((mkstr m o n)))))
 (assert (forall ((m (Array Int Int)) (o Int) (n Int) (i Int)) (! (=> (and (<= 0 i) (< i n)) (= (strbyte (mkstr m o n) i) (clamp_uint8 (elt_Int m o i)))) :pattern ((strbyte (mkstr m o n) i)))))
 (assert (forall ((a Str) (b Str)) (! (= (strlen (strcat a b)) (+ (strlen a) (strlen b))) :pattern ((strcat a b)))))
+(assert (forall ((s Str) (i Int)) (! (and (<= 0 (strbyte s i)) (<= (strbyte s i) 255)) :pattern ((strbyte s i)))))
+(declare-fun sdiff2 ((Array Int Int) Int Str) Int)
+(assert (forall ((m (Array Int Int)) (o Int) (n Int) (s Str)) (! (=> (and (= n (strlen s)) (=> (and (<= 0 (sdiff2 m o s)) (< (sdiff2 m o s) n)) (= (clamp_uint8 (elt_Int m o (sdiff2 m o s))) (strbyte s (sdiff2 m o s))))) (= (mkstr m o n) s)) :pattern ((mkstr m o n) (strlen s)))))
 (declare-fun sdiff ((Array Int Int) Int (Array Int Int) Int Int) Int)
 (assert (forall ((m1 (Array Int Int)) (o1 Int) (n1 Int) (m2 (Array Int Int)) (o2 Int) (n2 Int)) (! (=> (and (= n1 n2) (>= n1 0) (=> (and (<= 0 (sdiff m1 o1 m2 o2 n1)) (< (sdiff m1 o1 m2 o2 n1) n1)) (= (clamp_uint8 (elt_Int m1 o1 (sdiff m1 o1 m2 o2 n1))) (clamp_uint8 (elt_Int m2 o2 (sdiff m1 o1 m2 o2 n1)))))) (= (mkstr m1 o1 n1) (mkstr m2 o2 n2))) :pattern ((mkstr m1 o1 n1) (mkstr m2 o2 n2)))))
 `
